@@ -491,6 +491,35 @@ def r16g(ctx, rep, cr):
     rep.floor('R16g', 'TransactionWorkspace::operations calls in TensorChain', n, 2)
 
 
+def r16h(ctx, rep, cr):
+    rep.rule('R16h', 'the body is tied to the header for every block: Block::verify_tx_root never answers true by a constant — every path '
+                     'to its return computes the answer from a comparison of BlockHeader.tx_root with compute_tx_root(). A shortcut for '
+                     'special shapes (an empty transaction list "has no tree to rebuild") accepts a stored block whose transactions were '
+                     'wiped while the signed, hash-linked header still names the old root')
+    f = rep.require_fn('R16h', cr, BL + 'Block::verify_tx_root')
+    if f is None:
+        return
+    rep.analysed(f)
+    vals = A.return_bool_values(f)
+    defs = A.Defs(f)
+    cmp_ok = False
+    for b in f.bbs:
+        for st in b['s']:
+            if st[1][0] == 'bin' and st[1][1] in ('Eq', 'Ne'):
+                cmp_ok = True
+        t = b['t']
+        if t[0] == 'call' and re.search(r'PartialEq(<.*>)?>?::(eq|ne)$', t[1]):
+            cmp_ok = True
+    uses_root = any(x.endswith('BlockHeader.tx_root') for x in A.field_reads(f)) and bool(A.calls_to(f, ('re', r'Block::compute_tx_root$')))
+    if True in vals:
+        rep.violation('R16h', f, 'constant-true', f.loc(),
+                      'verify_tx_root can return true without comparing the recorded root with the recomputed one')
+    elif not (cmp_ok and uses_root):
+        rep.violation('R16h', f, 'no-comparison', f.loc(), 'verify_tx_root no longer compares BlockHeader.tx_root with compute_tx_root()')
+    else:
+        rep.holds('R16h', f, 'verdict', 'always the comparison of header.tx_root with compute_tx_root()')
+
+
 def run(ctx, rep):
     cr = ctx.crate('tensor_chain')
     r16a(ctx, rep, cr)
@@ -500,3 +529,4 @@ def run(ctx, rep):
     r16e(ctx, rep, cr)
     r16f(ctx, rep, cr)
     r16g(ctx, rep, cr)
+    r16h(ctx, rep, cr)
